@@ -23,10 +23,12 @@ import (
 	"sort"
 	"strings"
 	"sync"
+	"sync/atomic"
 	"testing"
 	"time"
 
 	"github.com/btcsuite/btcd/btcec/v2"
+	"github.com/btcsuite/btclog/v2"
 	"github.com/btcsuite/btcd/btcutil/v2"
 	"github.com/lightningnetwork/lnd/channeldb"
 	"github.com/lightningnetwork/lnd/htlcswitch/hop"
@@ -286,6 +288,7 @@ type c08Run struct {
 
 	mu        sync.Mutex
 	linkFails []string
+	stopping  atomic.Bool
 
 	phase        int
 	restartHits  []int
@@ -361,6 +364,11 @@ func (r *c08Run) startNetwork(chans [4]*lnwallet.LightningChannel) bool {
 		l.cfg.OnChannelFailure = func(_ lnwire.ChannelID,
 			_ lnwire.ShortChannelID, e LinkFailureError) {
 
+			// A link that is stopped while signing reports an
+			// "internal error" on its way out; not a failure.
+			if r.stopping.Load() {
+				return
+			}
 			r.noteLinkFail(fmt.Sprintf("phase %d %s: %v", r.phase,
 				name, e.Error()))
 		}
@@ -399,14 +407,20 @@ func (r *c08Run) startNetwork(chans [4]*lnwallet.LightningChannel) bool {
 }
 
 func (r *c08Run) stopNetwork() {
+	r.stopping.Store(true)
 	if r.n != nil {
 		r.n.stop()
 	}
 	r.wg.Wait()
+	r.stopping.Store(false)
 }
 
 func (r *c08Run) resolve(p *c08Pay, outcome int, pre lntypes.Preimage,
 	msg string) {
+
+	if i := strings.IndexAny(msg, "(\n"); i > 0 {
+		msg = msg[:i]
+	}
 
 	seq := len(r.tap.events())
 	p.mu.Lock()
@@ -499,18 +513,17 @@ func (r *c08Run) launch(p *c08Pay) error {
 	p.launched = true
 	p.mu.Unlock()
 
+	if err := sw.SendHTLC(firstHop, p.pid, htlc); err != nil {
+		r.resolve(p, c08FailedLocal, lntypes.Preimage{}, err.Error())
+		return nil
+	}
+	p.mu.Lock()
+	p.sent = true
+	p.mu.Unlock()
+
 	r.wg.Add(1)
 	go func() {
 		defer r.wg.Done()
-
-		if err := sw.SendHTLC(firstHop, p.pid, htlc); err != nil {
-			r.resolve(p, c08FailedLocal, lntypes.Preimage{},
-				err.Error())
-			return
-		}
-		p.mu.Lock()
-		p.sent = true
-		p.mu.Unlock()
 		r.await(p, sw)
 	}()
 
@@ -1445,6 +1458,17 @@ func c08RunCase(t *testing.T, plan *c08Plan) *c08Result {
 func TestVerifC08Atomic(t *testing.T) {
 	st := vstats.New("TestVerifC08Atomic")
 	defer st.Flush()
+
+	if lvl := vstats.EnvInt("VERIF_C08_LOG", 0); lvl > 0 {
+		h := btclog.NewDefaultHandler(os.Stderr)
+		lg := btclog.NewSLogger(h)
+		if lvl > 1 {
+			lg.SetLevel(btclog.LevelDebug)
+		} else {
+			lg.SetLevel(btclog.LevelWarn)
+		}
+		UseLogger(lg)
+	}
 
 	caseNo := 0
 	rapid.Check(t, func(rt *rapid.T) {
